@@ -7,7 +7,7 @@ OUT=/verif/seeded/results_$T.txt
 for d in seeded/C*-[AB]; do
   id=$(basename $d); prop=${id%-*}
   p=$d/patch_rebased.diff; [ -f $p ] || p=$d/patch.diff
-  if ! git -C /repo apply --check $p 2>/dev/null; then echo "$id NEEDS-REBASE" | tee -a $OUT; continue; fi
+  if ! git -C /repo apply --check /verif/$p 2>/dev/null; then echo "$id NEEDS-REBASE" | tee -a $OUT; continue; fi
   res=$(tools/seedtest.sh $prop /verif/$p $T 2>&1 | tail -3)
   rc=$(echo "$res" | grep -o "exit=[0-9]*")
   viol=$(echo "$res" | grep -o "violated=[0-9]*" | tail -1)
